@@ -32,11 +32,11 @@ MUTANTS = [
      "    p = gmpy.gcd(ax * w + cx, n)\n    if 1 < p < n:",
      "    p = gmpy.gcd(ax * w + cx, n)\n    if 1 <= p <= n:"),
     ('c01-gcd-factor', 'C01', L + 'rsa_aggregate_checks.py',
-     'factors = [g, vals[i] // g]',
-     'factors = [g + 2, vals[i] // g]'),
+     'factors = [gcds[i], vals[i] // gcds[i]]',
+     'factors = [gcds[i] + 2, vals[i] // gcds[i]]'),
     # (F21 reverted: trivial [n, 1] when n divides the product of the others)
     ('c01-gcd-trivial', 'C01', L + 'rsa_aggregate_checks.py',
-     '        if g == vals[i]:\n', '        if g == vals[i] + 1:\n'),
+     '        if gcds[i] == vals[i]:\n', '        if gcds[i] == vals[i] + 1:\n'),
     ('c01-keypair-product', 'C01', L + 'rsa_single_checks.py',
      '        if p * q == n:\n', '        if p * q >= n >> 3:\n'),
     # C02
